@@ -51,12 +51,12 @@ REMARK = {
 "C11": """R1-R6 are compared structurally (typed canonical tree of the emitted declaration vs the reference lowering rendered as Go; for the `any` member rule after inlining the hoisted `_autoGo_k` temporaries, plus the placement predicate for loop conditions). R5 is judged by value: the emitted construction (`big.NewInt`, `SetString`, `NewRat`, `SetFrac`, wrapped by init functions) is evaluated with math/big. R7 (user-defined range enumerators: iterator-function and `Next()` styles, pointer and value iterators, receivers that Go could range over natively, every loop-variable form, bodies with `break`) and R8 (inline closure calls: 0-2 parameters, variadic with 0-2 extra arguments, 0-2 results, plain / early-return / unused-parameter / mutating bodies) are judged by **execution**: the emitted functions and hand-written plain-Go references (a real range loop over the enumerated sequence, a real closure call) are compiled into one program with instrumented operands and run under three condition schedules; their traces (evaluation order, bound values, results, final values of assigned variables) must be equal. For assignment-form loop variables over `Next()` enumerators the reference is the documented loop (the final failing `Next()` overwrites the variable), not Go's native range. **R9 (tuple types, added in round 3)**: `NewTuple` with and without names held as a value, a defined type and a pointer; every spelling of a component (`t.0`, `t.X_0`, `t.x`) as value and as assignment target must lower to the ordinal field, `TupleLit` (typed and untyped) and the cast `T(a, ..)` / `T()` to the struct literal; `LookupField` / `IsTupleType` are probed on the same points (207 points; a sabotage that reverses the name-to-ordinal mapping is caught).""",
 "C12": """Part A (Print.tla) is specification-decided: tokens, indispensable blanks, lexer and parser are all in TLA+ and TLC proves the round trip on every enumerated tree; the forked printer must produce that token stream. Part B compares the tree the package holds (`Package.ASTFile`) with the tree parsed from `Package.WriteTo`, and runs Headers.tla's placements (builder-side parentheses). Part C (Comments.tla) models emission order - an `if`/`for` statement is emitted at `End`, after the statements of its body, an if-initialiser when it is complete - so that the model, not the test author, says which statement a comment belongs to; the package is written twice. Part D (not specification-derived) prints position-stripped standard-library files. **Round 2:** configuration `compact-mode-depth3` (the printer's compact mode below an index and in mixed-precedence expressions: `x[x] + x & ^x`) and part E, TypeParams.tla (type parameter lists of generic type declarations: the trailing comma of `[P *int | string,]`, validated against go/parser), were added after two seeded changes slipped through.""",
 "C13": """TLC checks `Parse(Tokens(t)) = t` over the bounded type grammar; `NoParens = TRUE` reproduces the `chan (<-chan T)` defect (fixed, 7fa8cc5). Each term is declared through the builder in every syntactic position across two files, written, re-checked, and the type read back is compared with the original. Instantiated generic types (`G[T]`, `ax.G[T]`, `P2[K, V]`) are constructors of the grammar (tokens, parser, realisation through `Package.Instantiate` / `types.Instantiate`), so type arguments nest arbitrarily with the other constructors. **Round 2:** interface methods now carry signatures (`Printf(T, ...U)`, `Get(T) (U, T)`) in the grammar, the parser of TypeSyntax.tla and the comparison of read-back types; and every term naming an imported type is also declared as the type of a *local* variable after local types named like the imports (`type x int; type x1 = int`) - added after two seeded changes slipped through.""",
-"C14": """Zero.tla states the two demands on a synthesised zero value (accepted where a T is expected; static type exactly T in an inferred position), proves satisfiability for every type of the universe and evaluates the form the implementation chooses (`ImplForm`), thereby *predicting* the deviation class `UntypedZeroForm` (KF-C14-1); the named-struct/array case was fixed (da1024a). Users replayed: `ZeroLit`, `T()`, `ReturnErr`, `ReturnErr(outer)`, omitted optional arguments, each also after operand-rewriting pre-steps (the cached zero element must not be mutated).""",
-"C15": """Determinism.tla is a self-composition: two builds of the same program with free iteration-order choices for every map-backed collection; `Sorted[c] = FALSE` must produce a counterexample. Replay: K = 25 in-process builds plus builds in child processes (map seeds differ per process), files rendered through `ForEachFile`.""",
-"C16": """History entries `<<op, arg, len, scope, sdepth, fn, labels, invb>>` are compared after *every* step with the real builder's projected state (stack length, scope identity and depth, current function, visible labels). `Leak = TRUE` is the sabotage guard. The former known finding KF-C16-1 (inline-closure base) disappeared with fix 4acf71e; the model had always described the sane behaviour. **Trace validation**: `Blocks.tla` / `BlockTrace.tla` check executions of the repository's *own* tests (recorded through the `verifTrace` hook at `startBlockStmt` / `endBlockStmt`) against the frame discipline; the first version rejected a white-box test that opens an `if` outside any function (the scope depth outside the outermost construct is not recorded: relaxed for the outermost frame only) and tests of error paths, which misuse the protocol on purpose (skipped by name).""",
-"C17": """Total.tla contributes the cross product (operation x operand classes x configuration); the only prediction is Outcome in {ok, reported error}. Every point runs in an isolated worker (6 GB address space, 128 MB stack, 20 s deadline); a dying point is confirmed alone; after 12 confirmed deaths the run stops early (the verdict is already FAIL). Operand classes include huge constants (2^40 .. 10^10000), types, references, multi-value and no-value calls and recursive types (A{*B}/B{*A}, type L []L).""",
+"C14": """Zero.tla states the two demands on a synthesised zero value (accepted where a T is expected; static type exactly T in an inferred position), proves satisfiability for every type of the universe and evaluates the form the implementation chooses (`ImplForm`), thereby *predicting* the deviation class `UntypedZeroForm` (KF-C14-1); the named-struct/array case was fixed (da1024a). Users replayed: `ZeroLit`, `T()`, `ReturnErr`, `ReturnErr(outer)`, omitted optional arguments, each also after operand-rewriting pre-steps (the cached zero element must not be mutated). **Round 3:** every (type, user) is replayed in four *realisations* of the type: as it is, through an alias declared in the package, through an alias of an alias, and as a delay-loaded named type (`Config.LoadNamed`) whose first use is the zero value (one fresh type object per user).""",
+"C15": """Determinism.tla is a self-composition: two builds of the same program with free iteration-order choices for every map-backed collection; `Sorted[c] = FALSE` must produce a counterexample. Replay: K = 25 in-process builds plus builds in child processes (map seeds differ per process), files rendered through `ForEachFile`. **Round 3:** two more collections - `xgosame` (extension dependencies that share their package name: a walk sorted by a key on which items tie is as unordered as an unsorted one; `Sorted` now takes the values total / bykey / none and TLC must refute `bykey` for this collection) and `ovref` (explicit `XGoo_` overload families that list another family, one registered before and one after it); programs have at most three non-empty collections (577 quick, 1789 thorough).""",
+"C16": """History entries `<<op, arg, len, scope, sdepth, fn, labels, invb>>` are compared after *every* step with the real builder's projected state (stack length, scope identity and depth, current function, visible labels). `Leak = TRUE` is the sabotage guard. The former known finding KF-C16-1 (inline-closure base) disappeared with fix 4acf71e; the model had always described the sane behaviour. **Trace validation**: `Blocks.tla` / `BlockTrace.tla` check executions of the repository's *own* tests (recorded through the `verifTrace` hook at `startBlockStmt` / `endBlockStmt`) against the frame discipline; the first version rejected a white-box test that opens an `if` outside any function (the scope depth outside the outermost construct is not recorded: relaxed for the outermost frame only) and tests of error paths, which misuse the protocol on purpose (skipped by name). **Round 3:** action `EndInitRejected` (a reported initialiser - `EndInit(2)` for one name - still pops its operands and leaves the initialiser context, which is what `endInit`'s deferred clean-up is for) and configuration `init-reject`: the first modelled error path, because clients that collect errors go on with the same builder.""",
+"C17": """Total.tla contributes the cross product (operation x operand classes x configuration); the only prediction is Outcome in {ok, reported error}. Every point runs in an isolated worker (6 GB address space, 128 MB stack, 20 s deadline); a dying point is confirmed alone; after 12 confirmed deaths the run stops early (the verdict is already FAIL). Operand classes include huge constants (2^40 .. 10^10000), types, references, multi-value and no-value calls and recursive types (A{*B}/B{*A}, type L []L). **Round 3:** configuration `src`: operands and operations carry source nodes and no `NodeInterpreter` is configured; every reported error is rendered explicitly (`Error()` under the harness's own recover: `fmt` swallows a panic inside `Error()`), also the errors delivered to `HandleErr`.""",
 "C18": """Shared.tla lists the package-level singletons (`VerifSharedGlobals`) each feature reads or writes; `Mutating = TRUE` is the sabotage guard. Replay: deep snapshots of the singletons around sequential builds; tuples of programs built in parallel must equal their sequential builds; the same tuples run under the race detector (`.bin/vcheck-race`). Every builder has its own big-number types; features `btiadd` / `btiuse` customise and probe the per-package builtin-type table.""",
-"C19": """TypeMap.tla refines a map over identity classes (TLC, 236 states; sabotage constants `StopAtFirstHole`, `IgnoreTombstone`); traces recorded from the real `typeutil.Map` (hash forced to collide / to one bucket) are validated by TypeMapTrace.tla; a pool of identical-but-distinct type pairs checks `hash identity`.""",
+"C19": """TypeMap.tla refines a map over identity classes (TLC, 236 states; sabotage constants `StopAtFirstHole`, `IgnoreTombstone`); traces recorded from the real `typeutil.Map` (hash forced to collide / to one bucket) are validated by TypeMapTrace.tla; a pool of identical-but-distinct type pairs checks `hash identity`. **Round 3:** the pool derives nine more forms from every base type (method of an interface, nested signature below a method, variadic parameter, channel directions, map key, unions in both term orders, constraint of a generic signature): ~1830 types, 1.67 million pairs. Generic function types are not put below interface methods: such a type is not a Go type and the hasher (like x/tools') hashes type parameters met there by pointer - the first run of the wider pool raised 43 alarms of exactly that kind, a defect of the pool, not of the code (§8).""",
 "C20": """Cache.tla models `Find` as the code's steps with the environment (fingerprint changes, `go list` failures, disk file, restart); `StaleBug = TRUE` reproduces the stale-serve defect (fixed b2397a6). Gated replay: the fingerprint callback and a stub `go` executable (C, unix socket) are scheduler gates, so every interleaving TLC enumerates for two callers is forced on the real code.""",
 }
 
@@ -313,6 +313,15 @@ A check that is wrong is corrected or removed; it is never listed as a finding. 
   form. The depth-3 tree sets exceeded TLC's 10^6 set-size limit: smaller operator sets.
 * **C02 thorough** - two unmeasured Flow configurations did not finish in 40 minutes (6.6*10^7 states
   after 5 minutes): re-fitted to measured counts (4.5*10^6, 3.9*10^6, 1.8*10^6 states).
+* **C19, round 3** - the widened type pool put *generic function types* below interface methods
+  (`interface{ M(func[T any](T)) }`): 43 "identical types hash differently" alarms on the unchanged
+  tree. A generic function type is not the type of any value, so such an interface cannot be
+  written in Go; the hasher (like x/tools' typeutil, which it is derived from) hashes type parameters
+  met below an interface method by pointer. The check demanded more than the property's domain
+  (keys are Go types): the derived forms imeth / ideep / gsig are no longer built from generic
+  signatures. The alias-below-a-method pairs that the same forms add are kept (they caught C19-3).
+* **C12 evidence** (`vp check` #6) - `assumptions: null` in the evidence of a run that records no
+  assumption before `Finish`; the evidence writer now always emits a list.
 """)
 
 w("---------------------------------------------------------------------------------------------------\n\n## 9. Seeded changes: which check catches which\n")
